@@ -4,7 +4,7 @@ import random
 
 from .. import gen, harness, mon, ref, runfam
 from ..core import Check, derive_seed
-from ..model import Expr, In, Ref, Program
+from ..model import Expr, In, Ref, Program, Opt
 
 ALPHABET = ["success", "error", "alt", "crash", "deployfail"]
 
@@ -170,6 +170,33 @@ def run(check):
         case, sem = runfam.build_case("c03-tg%04d" % j, g, **opts2)
         if mon.late_stage_waits(sem):
             continue  # the known finding about members waiting for stages of steps that can never start (see C15)
+        items.append((case, sem, g))
+    # lists that start with a constant and go on with expressions (in outputs and step inputs), the steps they refer to being
+    # referred to nowhere else and slower than everything else the node needs
+    for j in range(check.pick(24, 160)):
+        rng = random.Random(derive_seed(check.seed, "c03-constlist", j))
+        a = gen.plugin_step("a", Expr(In("tag")))
+        x = gen.plugin_step("x", Expr(In("tag")))
+        y = gen.plugin_step("y", Expr(In("tag")))
+        steps = [a, x, y]
+        lst = rng.choice([["a constant", gen.tagref("x")], ["k", "k2", gen.tagref("x"), gen.tagref("y")], [gen.tagref("a"), "mid", gen.tagref("x")], ["first", Opt(Ref("x", "outputs", "success", "tag"), True)]])
+        where = rng.choice(["output", "output", "step-input", "nested-output"])
+        if where == "output":
+            outs = {"success": {"a": gen.tagref("a"), "l": lst}}
+        elif where == "nested-output":
+            outs = {"success": {"a": gen.tagref("a"), "m": {"inner": [{"l": lst}]}}}
+        else:
+            steps.append(gen.plugin_step("c", gen.tagref("a"), extra_input={"l": lst}))
+            outs = {"success": {"c": Expr(Ref("c", "outputs", "success"))}}
+        rng.shuffle(steps)
+        # (a failing source is only combined with the plain lists: what an absent optional *list element* means is not defined -
+        # the engine leaves a nil in the list and the run ends with a `bug:` error; noted in DESIGN 14, not claimed)
+        outcome = {"x": "error"} if j % 5 == 4 and not any(isinstance(e, Opt) for e in lst) else {}
+        scripts = gen.make_scripts(steps, outcome)
+        for slow in ("x", "y"):
+            scripts[slow]["deploys"] = [{}, {"delay_ms": rng.choice([25, 50])}]
+        g = {"program": Program(steps, outs, gen.BASE_INPUT), "scripts": scripts, "input": gen.base_input(rng), "shape": "list-starting-with-a-constant/%s" % where, "outcome": outcome}
+        case, sem = runfam.build_case("c03-cl%04d" % j, g)
         items.append((case, sem, g))
     # the engine is configured to log `success` outputs and its log target is slow, while other steps complete
     for j in range(check.pick(60, 400)):
